@@ -166,6 +166,12 @@ type Hooks struct {
 	// LoopNeutral tells whether one loop iteration left the tracked state
 	// unchanged (defaults to SameEffect).
 	LoopNeutral func(a, b *State) bool
+	// DecideV / AssumeV are Decide / Assume with the evaluated value of the condition (used when
+	// re-evaluating the condition would repeat side effects).
+	DecideV func(in *Interp, st *State, cond ast.Expr, v Value) tri
+	AssumeV func(in *Interp, st *State, cond ast.Expr, v Value, branch bool) bool
+	// CallValue handles a call through a function value that denotes a known declared function.
+	CallValue func(in *Interp, st *State, call *ast.CallExpr, fn *types.Func, args []Value) (out []valState, handled bool)
 	// BinOp may give a domain-specific result for a binary operation on abstract values.
 	BinOp func(l Value, op token.Token, r Value) (Value, bool)
 	// CaseMatch is told that a tagged switch with a non-constant tag takes
@@ -568,6 +574,9 @@ func (in *Interp) branch(st *State, cond ast.Expr) []branchState {
 				d = triFalse
 			}
 		}
+		if d == triUnknown && in.h.DecideV != nil {
+			d = in.h.DecideV(in, vs.st, cond, vs.v)
+		}
 		if d == triUnknown && in.h.Decide != nil {
 			d = in.h.Decide(in, vs.st, cond)
 		}
@@ -578,13 +587,19 @@ func (in *Interp) branch(st *State, cond ast.Expr) []branchState {
 			out = append(out, branchState{vs.st, false})
 		default:
 			t, f := vs.st, vs.st.clone()
-			if in.h.Assume == nil || in.h.Assume(in, t, cond, true) {
+			assume := func(st *State, br bool) bool {
+				if in.h.AssumeV != nil && !in.h.AssumeV(in, st, cond, vs.v, br) {
+					return false
+				}
+				return in.h.Assume == nil || in.h.Assume(in, st, cond, br)
+			}
+			if assume(t, true) {
 				if in.h.Decision != nil {
 					in.h.Decision(in, t, cond, vs.v, true)
 				}
 				out = append(out, branchState{t, true})
 			}
-			if in.h.Assume == nil || in.h.Assume(in, f, cond, false) {
+			if assume(f, false) {
 				if in.h.Decision != nil {
 					in.h.Decision(in, f, cond, vs.v, false)
 				}
@@ -1303,6 +1318,12 @@ func (in *Interp) evalCall(st *State, call *ast.CallExpr) []valState {
 		if fnVal != nil && fnVal.Lit != nil {
 			out = append(out, in.inlineLit(a.st, fnVal.Lit, args)...)
 			continue
+		}
+		if fnVal != nil && fnVal.FnObj != nil && in.h.CallValue != nil {
+			if res, handled := in.h.CallValue(in, a.st, call, fnVal.FnObj, args); handled {
+				out = append(out, res...)
+				continue
+			}
 		}
 		if fnVal != nil && fnVal.FnObj != nil && in.h.Inline != nil && in.h.Inline(fnVal.FnObj) {
 			if fd := in.c.funcDecls[fnVal.FnObj]; fd != nil && fd.Body != nil {
